@@ -54,6 +54,18 @@ FIXED = [
      "`\'\'\'a` + empty line + `\'\'\'` evaluated to 'a' instead of 'a'+newline (1074 of the multi-line literals with bodies <= 7): splitlines() drops the last empty line"),
     ("C04", "fix: escape quotes and newlines in the printed name of a position mark",
      "a position mark named it's was printed as Position<'it's', 1, 2.5>, which does not parse"),
+    ("C10", "fix: routines in imported files were not rejected",
+     "an imported file with `macro m() {..} def 0 { stray(); }` was accepted: the macros-only check re-parsed a consumed token stream and never saw a routine"),
+    ("C10", "fix: IndexError for sources that only consist of meta attribute lines",
+     "`//?: a: b` (103 of 30k short token strings) raised IndexError in parse_exps_meta_attributes"),
+    ("C10", "fix: IndexError for routines that only consist of labels",
+     "`def 0 { @l; }` raised IndexError in strip_last_label"),
+    ("C10", "fix: IndexError for negative routine ids",
+     "`def -1 { a(); }` raised IndexError in the routine visitor"),
+    ("C10", "fix: AssertionError for routines that are not defined in the order of their ids",
+     "`def 1 { a(); } def 0 { b(); }` raised AssertionError (ordering assert outside the try)"),
+    ("C10", "fix: undocumented exception for a routine target that is neither an integer nor a constant",
+     "`def 0 for performer 1.5 { a(); }` raised TypeError (compile() unwraps exception chains to their first member)"),
     ("C08", "fix: source map file of macros imported by an imported file",
      "main.exps -> lib.exps -> deep/lib2.exps: macro entries and IncludedUsageMap named lib.exps for macros defined in deep/lib2.exps (66 of 574 macro cases)"),
 ]
